@@ -41,6 +41,12 @@ def main(argv):
             ctx.changed_constants = [n for n, v in sf["results"].items() if not v and pid in sf["props"].get(n, [])]
         except Exception as e:
             ctx.notes["source_constants_vs_model"] = dict(error=repr(e))
+        try:
+            tp = build.templates()
+            ctx.notes["template_texts_parsed_in_coq"] = dict(equal_to_the_model_ast=sorted(n for n, v in tp["results"].items() if v), differ=sorted(n for n, v in tp["results"].items() if not v), not_found=tp["missing"])
+            ctx.changed_templates = [n for n, v in tp["results"].items() if not v and pid in tp["props"].get(n, [])]
+        except Exception as e:
+            ctx.notes["template_texts_parsed_in_coq"] = dict(error=repr(e))
     rule = dict(rule="")
     # 2. the implementation, built from /repo's current working tree
     try:
@@ -72,6 +78,11 @@ def main(argv):
         # and the correspondence above found no input on which the behaviour differs
         ctx.violation("constant-changed:" + ",".join(ctx.changed_constants), "source constant(s) %s differ from the model's: the theorems are about other values" % ctx.changed_constants,
                       dict(kind="constants", constants=ctx.changed_constants), found_input=False)
+    if getattr(ctx, "changed_templates", None) and not ctx.violations:
+        # the text of a template no longer parses to the syntax tree whose evaluation is proved equal to the model's renderer (template_tie*), and the
+        # correspondence above found no input on which the printed register differs
+        ctx.violation("template-changed:" + ",".join(ctx.changed_templates), "template text(s) %s no longer parse to the syntax tree the renderer theorems are about" % ctx.changed_templates,
+                      dict(kind="templates", templates=ctx.changed_templates, theorem="Props/C15_templates.v: template_tie / template_tie_left / template_tie_summary"), found_input=False)
     if not coq["ok"] or (proof["obligations"] and proof["discharged"] != proof["obligations"]):
         # a proof obligation no longer checks: the property is no longer shown to hold. The property-level checks above were the
         # search for a failing input; if they found none, say so.
